@@ -36,7 +36,8 @@ var alphabet = map[string][]shape{
 	"CAPABILITY":   {{"valid", "CAPABILITY"}},
 	"NOOP":         {{"valid", "NOOP"}},
 	"LOGOUT":       nil, // ends the connection: exercised separately
-	"LOGIN":        {{"missing", "LOGIN"}, {"one", "LOGIN alice"}, {"valid", "LOGIN alice@example.com pw"}, {"uninitialised", "LOGIN prov@example.com pw"}},
+	"LOGIN":        {{"missing", "LOGIN"}, {"one", "LOGIN alice"}, {"valid", "LOGIN alice@example.com pw"}, {"uninitialised", "LOGIN prov@example.com pw"},
+		{"refused-unknown-name", "LOGIN mallory@example.com wrong"}, {"refused-foreign-domain", "LOGIN eve@elsewhere.example wrong"}, {"refused-local-name", "LOGIN ghost wrong"}},
 	"AUTHENTICATE": {{"missing", "AUTHENTICATE"}, {"unknown", "AUTHENTICATE CRAM-MD5"}},
 	"LIST":         {{"missing", "LIST"}, {"valid", `LIST "" "*"`}, {"delim", `LIST "" ""`}},
 	"LSUB":         {{"missing", "LSUB"}, {"valid", `LSUB "" "*"`}},
@@ -142,7 +143,13 @@ func storeSig(w *world.World) string {
 		}
 	}
 	sort.Strings(o)
-	return strings.Join(o, ",")
+	// and the account and domain rows of the shared database
+	var users, domains int
+	if sh := w.Mgr.GetSharedDB(); sh != nil {
+		sh.QueryRow("SELECT COUNT(*) FROM users").Scan(&users)
+		sh.QueryRow("SELECT COUNT(*) FROM domains").Scan(&domains)
+	}
+	return fmt.Sprintf("%s users=%d domains=%d", strings.Join(o, ","), users, domains)
 }
 
 func main() {
@@ -208,7 +215,11 @@ func main() {
 						a.selected, a.ro = true, true
 					}
 					w.Backend.Take()
+					if strings.Contains(sh.text, "wrong") {
+						w.Backend.Script = func(int, string) (int, time.Duration, bool) { return 401, 0, false }
+					}
 					check(rep, w, cn, &a, n, sh.text, []string{"single " + kind + " " + st + " " + hx.H(sh.text)})
+					w.Backend.Script = nil
 					rep.Case(kind+"|"+st+"|"+sh.text, (!a.authed && !preAuthOK[n]) || (!a.selected && selectedState[n]))
 					rep.Hit("single:" + kind + ":" + st)
 					cn.c.Close()
@@ -234,7 +245,7 @@ func main() {
 				var text string
 				switch {
 				case rng.Chance(15):
-					n, text = "LOGIN", rng.Pick([]string{"LOGIN alice@example.com pw", "LOGIN alice@example.com wrong", "LOGIN bob@example.com pw", "LOGIN prov@example.com pw"})
+					n, text = "LOGIN", rng.Pick([]string{"LOGIN alice@example.com pw", "LOGIN alice@example.com wrong", "LOGIN bob@example.com pw", "LOGIN prov@example.com pw", "LOGIN mallory@example.com wrong", "LOGIN eve@elsewhere.example wrong"})
 				case rng.Chance(15):
 					n, text = "SELECT", rng.Pick([]string{"SELECT INBOX", "SELECT nosuch", "EXAMINE INBOX", "EXAMINE Roles/x@y/INBOX", "SELECT Sent"})
 				case alphabet[n] == nil:
@@ -329,7 +340,18 @@ func check(rep *hx.Report, w *world.World, cn *conn, a *abs, name, text string, 
 	// the abstract state moves as Proto.next says
 	switch {
 	case isLogin && !r.OK() && !a.authed && !strings.HasPrefix(r.Tagged, "+"):
-		// a refused login (wrong password, no TLS, an account that may not log in yet) leaves the session unauthenticated
+		// a refused login (wrong password, no TLS, an account that may not log in yet) changes no store: no account, domain
+		// or database file is created for a name nobody vouched for
+		// (a login the backend accepted and the server then refuses because the provisioned account has not set its password
+		// yet has its store prepared first: the identity was vouched for, not judged here)
+		if strings.Contains(text, "wrong") || len(bodies) == 0 {
+			if s2 := storeSig(w); s2 != sig {
+				viol("a login nobody vouched for created or removed a store / account / domain: " + sig + " -> " + s2)
+				return
+			}
+			rep.Hit("refused-login:store-unchanged")
+		}
+		// …and leaves the session unauthenticated
 		if f := cn.c.Cmd(`LIST "" "*"`); f.OK() || hasData(f) {
 			rep.Violate("impl-violation", "protocol state machine (Props.C06: a refused login changes nothing)", fmt.Sprintf("%s connection: %q was answered %q, and the LIST that follows is answered %q", cn.kind, text, r.Tagged, f.Tagged), replay)
 			return
